@@ -397,6 +397,9 @@ func (vc *VC) specBinary(x CBinary, env *SpecEnv) Term {
 	case "!=":
 		return tNot(vc.equal(a, b, a.T, b.T, token.NoPos))
 	}
+	if a.Sort == SStr && b.Sort == SStr && x.Op == "+" {
+		return Term{fmt.Sprintf("(gs.cat %s %s)", a.S, b.S), SStr, types.Typ[types.String]}
+	}
 	if a.Sort != SInt || b.Sort != SInt {
 		return vc.specFail("operator %s on sorts %s, %s", x.Op, a.Sort, b.Sort)
 	}
